@@ -65,6 +65,12 @@ class Obj(object):
         return '<%s>' % self.name
 
 
+class It(object):
+    """a one-shot iterator (zip, map, filter, enumerate, reversed, a generator) or a dict view: can be iterated, has no len() (iterator) and no [i]"""
+    def __init__(self, items, kind='iterator', name='iterator'):
+        self.items, self.kind, self.name, self.used = list(items), kind, name, False
+
+
 class Fn(object):
     def __init__(self, node, env, glob, name=None):
         self.node, self.env, self.glob, self.name = node, env, glob, name or getattr(node, 'name', '<lambda>')
@@ -137,6 +143,8 @@ def render(v, depth=0):
     if isinstance(v, Obj):
         r = v.hooks.get('render')
         return r(v) if r else v.name
+    if isinstance(v, It):
+        return '<%s of %s>' % (v.name, render(v.items, d))
     if isinstance(v, Fn):
         return '<function %s>' % v.name
     if isinstance(v, Bound):
@@ -158,7 +166,7 @@ def render(v, depth=0):
 
 
 def has_abstract(v, depth=0):
-    if isinstance(v, (Sym, Obj, Fn, Bound, TypeV)):
+    if isinstance(v, (Sym, Obj, Fn, Bound, TypeV, It)):
         return True
     if depth > 6:
         return False
@@ -205,6 +213,8 @@ class SInterp(object):
             return True
         if isinstance(v, (Fn, Bound, TypeV)):
             return True
+        if isinstance(v, It):
+            return True if v.kind == 'iterator' else bool(v.items)
         try:
             return bool(v)
         except Exception as e:
@@ -217,6 +227,12 @@ class SInterp(object):
             return list(v.keys())
         if isinstance(v, (set, frozenset)):
             return sorted(v, key=render)
+        if isinstance(v, It):
+            if v.kind == 'iterator':
+                if v.used:
+                    return []
+                v.used = True
+            return list(v.items)
         if isinstance(v, Obj):
             h = v.hooks.get('iter')
             if h is not None:
@@ -232,6 +248,10 @@ class SInterp(object):
             self.pyerr(e)
 
     def length(self, v):
+        if isinstance(v, It):
+            if v.kind == 'view':
+                return len(v.items)
+            raise Raised('TypeError')
         if isinstance(v, Obj):
             n = v.hooks.get('length')
             if n is None:
@@ -255,6 +275,8 @@ class SInterp(object):
             return TypeV('function')
         if isinstance(v, TypeV):
             return TypeV('type')
+        if isinstance(v, It):
+            return TypeV(v.name)
         return TypeV(PYTYPE.get(type(v), type(v).__name__))
 
     def isinstance_(self, v, t):
@@ -273,6 +295,8 @@ class SInterp(object):
             return bool(names & {'ndarray', 'object'})
         if isinstance(v, (Fn, Bound)):
             return bool(names & {'object', 'function'})
+        if isinstance(v, It):
+            return bool(names & {'object', v.name})
         mro = {bool: ['bool', 'int', 'object'], int: ['int', 'object'], float: ['float', 'object'], str: ['str', 'object'], list: ['list', 'object'],
                tuple: ['tuple', 'object'], dict: ['dict', 'object'], set: ['set', 'object'], frozenset: ['frozenset', 'object'], slice: ['slice', 'object'],
                type(None): ['NoneType', 'object'], range: ['range', 'object']}.get(type(v))
@@ -643,6 +667,8 @@ class SInterp(object):
                 return set(out)
             except TypeError:
                 raise Raised('TypeError')
+        if isinstance(e, ast.GeneratorExp):
+            return It(out, name='generator')
         return out
 
     def getattr_(self, o, attr, default=KeyError):
@@ -695,6 +721,8 @@ class SInterp(object):
         raise Undecided('attribute %s of %s' % (attr, render(o)[:60]))
 
     def getitem(self, c, i):
+        if isinstance(c, It):
+            raise Raised('TypeError')
         if isinstance(c, Obj):
             h = c.hooks.get('getitem')
             if h is None:
@@ -774,6 +802,8 @@ class SInterp(object):
                     raise Raised('TypeError')
             elif isinstance(b, Sym):
                 return Sym('op', 'in' if isinstance(op, ast.In) else 'not in', a, b)
+            elif isinstance(b, It):
+                r = any(self._eq(a, x) for x in self.iterate(b))
             elif isinstance(b, (list, tuple, set, frozenset)):
                 r = any(self._eq(a, x) for x in b)
             elif isinstance(b, dict):
@@ -1031,9 +1061,9 @@ class SInterp(object):
                 self.block(node.body, env)
             except _Return as r:
                 if is_gen:
-                    return env['__yielded__']
+                    return It(env['__yielded__'], name='generator')
                 return r.value
-            return env['__yielded__'] if is_gen else None
+            return It(env['__yielded__'], name='generator') if is_gen else None
         finally:
             self.depth -= 1
 
@@ -1098,7 +1128,7 @@ class SInterp(object):
                 raise Raised('TypeError')
             return o.join(vals)
         if isinstance(o, dict) and attr in ('keys', 'values', 'items'):
-            return list(getattr(o, attr)()) if not kwargs and not args else self.pyerr(TypeError())
+            return It(list(getattr(o, attr)()), kind='view', name='dict_' + attr) if not kwargs and not args else self.pyerr(TypeError())
         if isinstance(o, list) and attr == 'sort':
             key = kwargs.get('key')
             try:
@@ -1175,11 +1205,13 @@ class SInterp(object):
             if n == 'range':
                 return range(*args)
             if n == 'enumerate':
-                return list(enumerate(self.iterate(args[0]), *(args[1:2]), **kwargs))
+                return It(enumerate(self.iterate(args[0]), *(args[1:2]), **kwargs), name='enumerate')
             if n == 'zip':
-                return list(zip(*[self.iterate(a) for a in args]))
+                return It(zip(*[self.iterate(a) for a in args]), name='zip')
             if n == 'reversed':
-                return list(reversed(self.iterate(args[0])))
+                if isinstance(args[0], (It, set, frozenset, dict)) and not (isinstance(args[0], dict)):
+                    raise Raised('TypeError')
+                return It(reversed(self.iterate(args[0])), name='reversed')
             if n == 'sorted':
                 vals = self.iterate(args[0])
                 key = kwargs.get('key')
@@ -1198,9 +1230,9 @@ class SInterp(object):
                 return {'min': min, 'max': max, 'sum': sum, 'abs': abs, 'round': round, 'divmod': divmod}[n](*vals, **kwargs)
             if n == 'map':
                 its = [self.iterate(a) for a in args[1:]]
-                return [self.apply(args[0], list(xs), {}) for xs in zip(*its)]
+                return It([self.apply(args[0], list(xs), {}) for xs in zip(*its)], name='map')
             if n == 'filter':
-                return [x for x in self.iterate(args[1]) if (self.truth(x) if args[0] is None else self.truth(self.apply(args[0], [x], {})))]
+                return It([x for x in self.iterate(args[1]) if (self.truth(x) if args[0] is None else self.truth(self.apply(args[0], [x], {})))], name='filter')
             if n == 'iter':
                 return ('iterator', self.iterate(args[0]), [0])
             if n == 'next':
@@ -1212,7 +1244,15 @@ class SInterp(object):
                     if len(args) > 1:
                         return args[1]
                     raise Raised('StopIteration')
-                if isinstance(it, list):            # a generator expression, evaluated eagerly
+                if isinstance(it, It):
+                    if it.items and not it.used:
+                        return it.items.pop(0)
+                    if len(args) > 1:
+                        return args[1]
+                    raise Raised('StopIteration')
+                if isinstance(it, list):            # (a list is not an iterator)
+                    raise Raised('TypeError')
+                if False:
                     if it:
                         return it.pop(0)
                     if len(args) > 1:
